@@ -67,6 +67,10 @@ pub fn classify(msg: &str) -> String {
         "e"
     } else if msg.contains("entered unreachable code") {
         "!"
+    } else if msg.contains("is not a char boundary") {
+        "c"
+    } else if msg.contains("invalid slice") || msg.contains("start <= end") || msg.contains("start.raw <= end.raw") {
+        "r"
     } else if msg.contains("Bad offset") || msg.contains("Bad range") {
         "o"
     } else if msg.contains("assertion `left == right` failed") && msg.contains("RawSyntaxKind(") {
